@@ -101,7 +101,29 @@ SWEEPS = {'C01': [('MPS', 'left'), ('MPS', 'right'), ('MPO', 'left'), ('MPO', 'r
           'C13': [('compress', 'left'), ('compress', 'right')]}
 
 
+def _conditional(out):
+    """a postcondition proved from a loop invariant is only as good as the invariant: where an invariant obligation of a function
+    is not discharged on this tree, the engine-Z postconditions of that function are reported as undecided (never as violated)"""
+    import re
+    def tag_of(name):
+        name = re.sub(r' \[conjunct \d+/\d+\]', '', name)
+        return name.split(' [')[-1] if ' [' in name else ''
+    bad = {(v.fn, tag_of(v.name)) for v in out if v.kind == 'invariant' and v.status != 'discharged'}
+    if not bad:
+        return out
+    fns = {f for f, _ in bad}
+    for v in out:
+        if v.engine == 'Z' and v.kind == 'ensures' and v.status == 'discharged' and v.fn in fns:
+            if (v.fn, tag_of(v.name)) in bad or (v.fn, '') in bad:
+                v.status = 'undecided'; v.detail = 'follows from the loop invariant, which is not established on this tree'
+    return out
+
+
 def deductive_all(prop, tier='quick'):
+    return _conditional(_deductive_all(prop, tier))
+
+
+def _deductive_all(prop, tier='quick'):
     """all deductive obligations of a property; independent groups run in parallel processes"""
     import concurrent.futures as cf, multiprocessing as mp
     tasks = [('T', prop, tier, None), ('Z', prop, tier, None), ('F', prop, tier, None), ('L', prop, tier, None)]
